@@ -213,6 +213,120 @@ def _r1_r2_interpreted(ctx, md, np):
     ctx.floor("R1", 7 * 4)
 
 
+def _history_sites(md, ctx=None, rid="R3"):
+    """(routine, circular index, write slot, store, step parameter, -) of every history store of the XL integrators, written in terms of the step parameter"""
+    sites = []
+    for q in ("XL_BOMD.one_step", "XL_ESMD.one_step"):
+        f = md.func(q)
+        step_param = f.args.args[2].arg
+        writes = [st for st in ast.walk(f) if isinstance(st, ast.Assign) and isinstance(st.targets[0], ast.Subscript)
+                  and norm(st.targets[0].value) in ("Pt", "es_amp_t")]
+        if not writes:
+            raise AnalysisError(f"{q}: history write not found")
+        # the circular index is the local the write slot is computed from (name-independent)
+        local_assigned = {st.targets[0].id: st for st in ast.walk(f) if isinstance(st, ast.Assign) and len(st.targets) == 1 and isinstance(st.targets[0], ast.Name)}
+        ci = sorted({x.id for w in writes for x in ast.walk(w.targets[0].slice) if isinstance(x, ast.Name) and x.id in local_assigned})
+        if len(ci) != 1:
+            raise AnalysisError(f"{q}: the history write slot does not depend on exactly one local index ({ci})")
+        CI = ci[0]
+        cdef = [st for st in ast.walk(f) if isinstance(st, ast.Assign) and norm(st.targets[0]) == CI]
+        if len(cdef) != 1:
+            raise AnalysisError(f"{q}: circular index `{CI}` is not defined exactly once")
+        # the index may itself be computed from other single-assignment locals (e.g. slot = m - 1 - cindx): write everything in terms of parameters / attributes
+        import copy as _copy
+
+        def _expand(e, depth=0):
+            class _S(ast.NodeTransformer):
+                def visit_Name(s_, n):
+                    st_ = local_assigned.get(n.id)
+                    if isinstance(n.ctx, ast.Load) and st_ is not None and n.id != step_param and depth < 5 and \
+                            sum(1 for x in ast.walk(f) if isinstance(x, ast.Name) and x.id == n.id and isinstance(x.ctx, ast.Store)) == 1:
+                        return _expand(_copy.deepcopy(st_.value), depth + 1)
+                    return n
+            return _S().visit(_copy.deepcopy(e))
+        # roles: the circular index c is what the propagators receive as their window start (3rd argument); the write slot is the subscript of the history store.
+        # Both are written out in terms of the step parameter, so it does not matter through which locals they are computed.
+        props = [c_ for c_ in calls_in(f) if callee_attr(c_) in ("_propagate_P", "_propagate_excited_state") and len(c_.args) >= 3]
+        cands = {norm(_expand(c_.args[2])) for c_ in props}
+        if len(cands) != 1:
+            raise AnalysisError(f"{q}: the propagators do not receive one common circular index ({sorted(cands)})")
+        cexpr_full = _expand(props[0].args[2])
+        for w in writes:
+            sites.append((q, cexpr_full, _expand(w.targets[0].slice), w, step_param, None))
+            # value written is the freshly propagated quantity
+            if ctx is not None:
+                ctx.check(norm(w.value) in ("P", "es_amp"), rid, md, w, q, w, "history slot receives the newly propagated quantity",
+                          f"history slot receives `{norm(w.value)}`")
+    return sites
+
+
+def check_restart_read(ctx, md, rid="R3", sites=None):
+    """the history slot read on restart is the one written by the last completed step, for every history length and phase (shared with C10)"""
+    sites = sites if sites is not None else _history_sites(md)
+    # restart read
+    rfc = md.func("Molecular_Dynamics_Basic.run_from_checkpoint")
+    rdefs = {norm(st.targets[0]): st.value for st in ast.walk(rfc) if isinstance(st, ast.Assign) and len(st.targets) == 1 and isinstance(st.targets[0], ast.Name)}
+    def _depends_on_step(e, depth=0):
+        """does the expression depend, through single-definition locals, on the checkpoint's step_done entry"""
+        for x in ast.walk(e):
+            if isinstance(x, ast.Subscript) and isinstance(x.slice, ast.Constant) and x.slice.value == "step_done":
+                return True
+            if isinstance(x, ast.Name) and x.id in rdefs and depth < 6 and _depends_on_step(rdefs[x.id], depth + 1):
+                return True
+        return False
+    # the history reads on restart, by role: subscripts whose index is computed from the checkpoint's step_done (whatever the arrays and locals are called)
+    reads = [n for n in ast.walk(rfc) if isinstance(n, ast.Subscript) and isinstance(n.ctx, ast.Load) and not isinstance(n.slice, (ast.Constant, ast.Slice))
+             and _depends_on_step(n.slice) and not (isinstance(n.slice, ast.Constant))]
+    if len(reads) < 1:
+        raise AnalysisError("run_from_checkpoint: restart reads of the history not found")
+    q0, cexpr0, wexpr0, _, spn, CI0 = sites[0]
+
+    def ck_key(n):
+        """'k' / 'step_done' for <ckpt>['xl_bomd_params']['k'] and <ckpt>['step_done'] whatever the dictionary local is called"""
+        if isinstance(n, ast.Subscript) and isinstance(n.slice, ast.Constant) and isinstance(n.slice.value, str):
+            if n.slice.value == "step_done" and isinstance(n.value, ast.Name):
+                return "step_done"
+            if n.slice.value == "k" and isinstance(n.value, ast.Subscript) and isinstance(n.value.slice, ast.Constant) and n.value.slice.value == "xl_bomd_params":
+                return "k"
+        return None
+
+    def closure_eval(expr, vals, depth=0):
+        """evaluate an integer expression of run_from_checkpoint, resolving locals through their single definitions"""
+        class T(ast.NodeTransformer):
+            def visit_Subscript(self, n):
+                kk = ck_key(n)
+                if kk is not None:
+                    return ast.Constant(vals[kk])
+                return self.generic_visit(n)
+        import copy
+        e2 = T().visit(copy.deepcopy(expr))
+        env = {}
+        for x in ast.walk(e2):
+            if isinstance(x, ast.Name) and x.id in rdefs and depth < 6:
+                env[x.id] = closure_eval(rdefs[x.id], vals, depth + 1)
+        return int_eval(e2, env)
+    # the local that holds the history length on restart: the one defined from ...['k']
+    mlen = [nm for nm, v in rdefs.items() if any(ck_key(x) == "k" for x in ast.walk(v))]
+    # (when the history length has no local of its own the read slot alone is decided: equality with the written slot for every phase and every m pins the modulus as well)
+    mlen = [nm for nm in mlen if not _depends_on_step(rdefs[nm])]
+    mlen = mlen if len(mlen) == 1 else []
+    for rd in reads:
+        bad = []
+        for m in range(4, 11):
+            k = m - 1
+            for done in range(1, 3 * m):
+                vals = {"k": k, "step_done": done}
+                xl_m = closure_eval(rdefs[mlen[0]], vals) if mlen else m
+                slot = closure_eval(rd.slice, vals)
+                last_c = int_eval(cexpr0, {"self.m": m, spn: done - 1})
+                last_slot = int_eval(wexpr0, {"self.m": m, spn: done - 1})
+                if xl_m != m or slot != last_slot:
+                    bad.append((m, done, slot, last_slot))
+        ctx.check(not bad, rid, md, rd, "Molecular_Dynamics_Basic.run_from_checkpoint", rd,
+                  f"restart reads `{norm(rd)}` = the slot written by the last completed step, for m=4..10 and every phase",
+                  f"restart reads history slot `{norm(rd)}` which is not the one written by the last completed step; first (m,step_done,read,written): {bad[:3]}")
+
+
 def run(ctx):
     import numpy as np
     import sympy as sp
@@ -296,47 +410,7 @@ def run(ctx):
             ctx.check(cH == 1, "R2", md, ret, q, ret, f"{q}: history enters as sum_j coeff_j * slot_j", f"{q}: history term has weight {cH}")
 
     # ---------------------------------------------------------------- R3 index agreement
-    sites = []
-    for q in ("XL_BOMD.one_step", "XL_ESMD.one_step"):
-        f = md.func(q)
-        step_param = f.args.args[2].arg
-        writes = [st for st in ast.walk(f) if isinstance(st, ast.Assign) and isinstance(st.targets[0], ast.Subscript)
-                  and norm(st.targets[0].value) in ("Pt", "es_amp_t")]
-        if not writes:
-            raise AnalysisError(f"{q}: history write not found")
-        # the circular index is the local the write slot is computed from (name-independent)
-        local_assigned = {st.targets[0].id: st for st in ast.walk(f) if isinstance(st, ast.Assign) and len(st.targets) == 1 and isinstance(st.targets[0], ast.Name)}
-        ci = sorted({x.id for w in writes for x in ast.walk(w.targets[0].slice) if isinstance(x, ast.Name) and x.id in local_assigned})
-        if len(ci) != 1:
-            raise AnalysisError(f"{q}: the history write slot does not depend on exactly one local index ({ci})")
-        CI = ci[0]
-        cdef = [st for st in ast.walk(f) if isinstance(st, ast.Assign) and norm(st.targets[0]) == CI]
-        if len(cdef) != 1:
-            raise AnalysisError(f"{q}: circular index `{CI}` is not defined exactly once")
-        # the index may itself be computed from other single-assignment locals (e.g. slot = m - 1 - cindx): write everything in terms of parameters / attributes
-        import copy as _copy
-
-        def _expand(e, depth=0):
-            class _S(ast.NodeTransformer):
-                def visit_Name(s_, n):
-                    st_ = local_assigned.get(n.id)
-                    if isinstance(n.ctx, ast.Load) and st_ is not None and n.id != step_param and depth < 5 and \
-                            sum(1 for x in ast.walk(f) if isinstance(x, ast.Name) and x.id == n.id and isinstance(x.ctx, ast.Store)) == 1:
-                        return _expand(_copy.deepcopy(st_.value), depth + 1)
-                    return n
-            return _S().visit(_copy.deepcopy(e))
-        # roles: the circular index c is what the propagators receive as their window start (3rd argument); the write slot is the subscript of the history store.
-        # Both are written out in terms of the step parameter, so it does not matter through which locals they are computed.
-        props = [c_ for c_ in calls_in(f) if callee_attr(c_) in ("_propagate_P", "_propagate_excited_state") and len(c_.args) >= 3]
-        cands = {norm(_expand(c_.args[2])) for c_ in props}
-        if len(cands) != 1:
-            raise AnalysisError(f"{q}: the propagators do not receive one common circular index ({sorted(cands)})")
-        cexpr_full = _expand(props[0].args[2])
-        for w in writes:
-            sites.append((q, cexpr_full, _expand(w.targets[0].slice), w, step_param, None))
-            # value written is the freshly propagated quantity
-            ctx.check(norm(w.value) in ("P", "es_amp"), "R3", md, w, q, w, "history slot receives the newly propagated quantity",
-                      f"history slot receives `{norm(w.value)}`")
+    sites = _history_sites(md, ctx, "R3")
     for q, cexpr, wexpr, wst, sp_name, CI in sites:
         bad = []
         n = 0
@@ -364,57 +438,7 @@ def run(ctx):
                 bad.append((m, "slots used", sorted(slot_written_at)))
         ctx.check(not bad, "R3", md, wst, q, wst, f"{q}: slot<->coefficient age pairing and oldest-slot overwrite hold for m=4..10, all phases ({n} pairings)",
                   f"{q}: circular history indexing is inconsistent: cindx=`{norm(cexpr)}`, write slot=`{norm(wexpr)}`; first problems {bad[:3]}")
-    # restart read
-    rfc = md.func("Molecular_Dynamics_Basic.run_from_checkpoint")
-    rdefs = {norm(st.targets[0]): st.value for st in ast.walk(rfc) if isinstance(st, ast.Assign) and len(st.targets) == 1 and isinstance(st.targets[0], ast.Name)}
-    reads = [n for n in ast.walk(rfc) if isinstance(n, ast.Subscript) and norm(n.value) in ("Pt", "es_amp_t") and isinstance(n.ctx, ast.Load)]
-    if len(reads) < 2:
-        raise AnalysisError("run_from_checkpoint: restart reads of the history not found")
-    q0, cexpr0, wexpr0, _, spn, CI0 = sites[0]
-
-    def ck_key(n):
-        """'k' / 'step_done' for <ckpt>['xl_bomd_params']['k'] and <ckpt>['step_done'] whatever the dictionary local is called"""
-        if isinstance(n, ast.Subscript) and isinstance(n.slice, ast.Constant) and isinstance(n.slice.value, str):
-            if n.slice.value == "step_done" and isinstance(n.value, ast.Name):
-                return "step_done"
-            if n.slice.value == "k" and isinstance(n.value, ast.Subscript) and isinstance(n.value.slice, ast.Constant) and n.value.slice.value == "xl_bomd_params":
-                return "k"
-        return None
-
-    def closure_eval(expr, vals, depth=0):
-        """evaluate an integer expression of run_from_checkpoint, resolving locals through their single definitions"""
-        class T(ast.NodeTransformer):
-            def visit_Subscript(self, n):
-                kk = ck_key(n)
-                if kk is not None:
-                    return ast.Constant(vals[kk])
-                return self.generic_visit(n)
-        import copy
-        e2 = T().visit(copy.deepcopy(expr))
-        env = {}
-        for x in ast.walk(e2):
-            if isinstance(x, ast.Name) and x.id in rdefs and depth < 6:
-                env[x.id] = closure_eval(rdefs[x.id], vals, depth + 1)
-        return int_eval(e2, env)
-    # the local that holds the history length on restart: the one defined from ...['k']
-    mlen = [nm for nm, v in rdefs.items() if any(ck_key(x) == "k" for x in ast.walk(v))]
-    # (when the history length has no local of its own the read slot alone is decided: equality with the written slot for every phase and every m pins the modulus as well)
-    mlen = mlen if len(mlen) == 1 and not any(isinstance(x, ast.Subscript) and norm(x.value) in ("Pt", "es_amp_t") for x in ast.walk(rdefs[mlen[0]])) else []
-    for rd in reads:
-        bad = []
-        for m in range(4, 11):
-            k = m - 1
-            for done in range(1, 3 * m):
-                vals = {"k": k, "step_done": done}
-                xl_m = closure_eval(rdefs[mlen[0]], vals) if mlen else m
-                slot = closure_eval(rd.slice, vals)
-                last_c = int_eval(cexpr0, {"self.m": m, spn: done - 1})
-                last_slot = int_eval(wexpr0, {"self.m": m, spn: done - 1})
-                if xl_m != m or slot != last_slot:
-                    bad.append((m, done, slot, last_slot))
-        ctx.check(not bad, "R3", md, rd, "Molecular_Dynamics_Basic.run_from_checkpoint", rd,
-                  f"restart reads `{norm(rd)}` = the slot written by the last completed step, for m=4..10 and every phase",
-                  f"restart reads history slot `{norm(rd)}` which is not the one written by the last completed step; first (m,step_done,read,written): {bad[:3]}")
+    check_restart_read(ctx, md, "R3", sites)
     hook = md.func("XL_BOMD._do_integrator_step")
     os_calls = [c for c in calls_in(hook) if callee_attr(c) == "one_step"]
     ipar = hook.args.args[1].arg
